@@ -75,10 +75,20 @@ def fixed_point(wb, inputs):
 
 
 class IterModel:
-    def __init__(self, wb):
+    def __init__(self, wb, src='NoData', workdir=None):
         self.wb = wb
         cells, arrays = W.cells(wb)
-        self.m = xl.compile_wb(cells, arrays=arrays, cycles=dict(CYCLES))
+        if src == 'Stored':
+            import os
+            from pycel import ExcelCompiler
+            path = os.path.join(workdir, 'stored_iter.xlsx')
+            if not os.path.exists(path):
+                fresh = engine.Oracle(wb).values(dict(wb['inputs']))
+                results = {f: fresh[f][1] for f in W.nodes(wb)['formulas']}
+                xl.write_xlsx_with_results(path, cells, results, arrays=arrays, iterate=(100, 0.001))
+            self.m = ExcelCompiler(path, cycles=True)
+        else:
+            self.m = xl.compile_wb(cells, arrays=arrays, cycles=dict(CYCLES))
         self.scale = wb.get('scale', 1)
         n = W.nodes(wb)
         self.tracked = set(n['formulas']) | set(n['aliases'])
@@ -93,6 +103,7 @@ class IterModel:
                 val[node] = ['?'] if cell._value is None else W.js_val(cell._value, self.scale)
                 prev[node] = ['?'] if cell._prev_value is None else W.js_val(cell._prev_value, self.scale)
         return dict(built=sorted(built), val=val, prev=prev,
+                    changed=bool(getattr(self.m, '_values_changed', False)),
                     passes=trk.ns.iteration_number,
                     todo=sorted(W.node_of(c.address.address) for c in trk.ns.todo))
 
@@ -138,14 +149,16 @@ def has_unexact(state):
 
 
 def job(arg):
-    kind, name, pool, choices, settable, depth, seed = arg
+    kind, name, pool, choices, settable, depth, seed = arg[:7]
+    src = arg[7] if len(arg) > 7 else 'NoData'
     rnd = random.Random(seed)
     acyclic = kind == 'acyclic'
     wb = (W.WORKBOOKS if acyclic else W.WORKBOOKS_CYC)[name]
     scale = wb.get('scale', 1)
     extra = f'CONSTRAINT DepthBound\n' if depth else ''
     g = engine.gen_iter_graph(name, wb, pool, choices, acyclic, settable=settable,
-                              depth=depth)
+                              depth=depth, src=src)
+    workdir = tlc.new_scratch('it')
     oracle = engine.Oracle(wb) if acyclic else None
     out = dict(name=name, kind=kind, tlc=dict(
         run=f'EngineIter {name} choices={choices}', distinct=g.tlc.distinct,
@@ -155,7 +168,7 @@ def job(arg):
     drift = []
 
     def make_model():
-        return IterModel(wb)
+        return IterModel(wb, src, workdir)
 
     def on_step(model, s, act, spec_ret, t, hist):
         out['cases'] += 1
@@ -234,6 +247,8 @@ def job(arg):
                 sv = st[key] if isinstance(st[key], dict) else {}
                 if sv != proj[key]:
                     diffs.append((key, sv, proj[key]))
+            if st.get('changed', False) != proj.get('changed', False):
+                diffs.append(('changed', st.get('changed'), proj.get('changed')))
             if act['op'] == 'evaluate' and (st['passes'] != proj['passes'] or
                                             sorted(st['todo']) != proj['todo']):
                 diffs.append(('tracker', st['passes'], sorted(st['todo']),
@@ -262,6 +277,8 @@ def run(tier, seed):
             ('acyclic', 'nested', [2], [(2, 0), (100, 0)], ['A1'], 0, seed),
             ('acyclic', 'alias', [5], [(100, 0)], ['A1'], 0, seed),
             ('acyclic', 'cse', [5], [(100, 0)], ['A2'], 0, seed),
+            ('acyclic', 'chain', [2], [(1, 0), (100, 0)], ['A1'], 0, seed, 'Stored'),
+            ('acyclic', 'range', [2], [(2, 0), (100, 0)], ['A1'], 0, seed, 'Stored'),
             ('cyclic', 'cyc2', [0, 8], [(1, T4), (3, T4), (100, T4)], None, 4, seed),
             ('cyclic', 'cycr', [3], [(2, T4), (100, T4)], None, 4, seed),
             ('cyclic', 'cyc3', [0], [(100, T4), (4, T8)], None, 4, seed),
@@ -277,6 +294,8 @@ def run(tier, seed):
                          ins[:1], 0, seed))
             if small:
                 jobs.append(('acyclic', name, [5], [(2, 0), (3, 0)], ins[-1:], 0, seed + 1))
+            if name != 'twosheet':
+                jobs.append(('acyclic', name, [2], [(1, 0), (100, 0)], ins[:1], 0, seed, 'Stored'))
         for name in W.WORKBOOKS_CYC:
             jobs.append(('cyclic', name, [0, 3, 8], [(1, T4), (2, T4), (3, T4), (100, T4), (100, T8), (5, T8)],
                          None, 4, seed))
